@@ -28,6 +28,7 @@ pub const REQUIRED: &[&str] = &[
     "game_FE14",
     "game_FE15",
     "three_or_more_layers",
+    "layer_list_names_a_directory_twice",
 ];
 
 pub fn run(cx: &mut Ctx) {
